@@ -1,5 +1,10 @@
 TLA = "TLA+ spec + TLC model checking + trace validation of the real code (conformance)"
 TEXTS = {
+ "C15": {
+  "level": "Sampling.tla states well-formedness of GetLastStateProof over the order structure of the difficulties; PeerSync.tla applies it (SamplesOk / ReqOk incl. the rebase rule) to EVERY request the real client sends in the sync drivers, and Trace_Sampling.tla to the real build_prove_request_content(_from_genesis) called over a grid of 109 (blocks, lastN) rows x random 2^64-scale numbers and 8..250-bit difficulties, with and without a previous proof and remembered last-N headers; the number of distinct samples is compared with a table computed in exact arithmetic; the must-refuse cases must return None.",
+  "ref": "DESIGN.md 4 C15", "technique": TLA,
+  "note": "statistical shape of the sample distribution is out of reach; known finding KF-C15-resolution",
+ },
  "C01": {
   "level": "RecvProof of PeerSync.tla commits trusted state only through ProofCommit, whose guard is the conjunction of all verification attributes; TLC checks on the bounded model that every message class with one failed attribute leaves the trusted state unchanged. On the real code, for requests the client itself generated (random FlyClient samples) in five kinds of pre-state (first proof, new proof, after restart, reorg, no-sample range), every mutation of the honest answer from a catalogue (every raw header field, uncles hash, extension, every parent-chain-root field, drop/duplicate/swap of headers and proof items, fork headers, and RE-PROVED structural changes: hidden / replaced / extra samples, holes in the last-N and reorg sections) is delivered and must be banned with the projected trusted state unchanged, after which the honest answer must still be accepted; adversarial branches with one unmined (real Eaglesong PoW) or non-committing block are served by the honest algorithm and must be rejected exactly when a flawed header is shown.",
   "ref": "DESIGN.md 4 C01", "technique": TLA,
